@@ -103,11 +103,14 @@ def run(ctx):
     wspecs, wtrees = wc.specs(ctx, random.Random(ctx.seed * 7919 + 100), "C02")
     specs += wspecs
     tr, episodes, fails = sc.run_and_validate(specs)
+    # the repository's own suite: the scans it makes of its resource projects, validated by the same specification
+    str_, sepisodes, sfails, smeta = sc.validate_suite_scans()
+    fails = fails + sfails
     st = sc.stats(episodes)
     used = {s for pl in placements for s in pl["pos"]}
     if used != set(slots) or not st["imports_observed"]:
         raise tlc.MachineryError(f"vacuous run: slots never used {set(slots) - used}; {st}")
-    cov = {"real_source_trees": wtrees, "states": mc.distinct + pr.distinct + tr.states, "transitions": mc.generated + pr.generated + tr.transitions,
+    cov = {"real_source_trees": wtrees, "repository_suite_scans_validated": smeta.get("scans", 0), "repository_suite_scans_skipped": smeta.get("skipped", {}), "states": mc.distinct + pr.distinct + tr.states, "transitions": mc.generated + pr.generated + tr.transitions,
            "model_states": mc.distinct + pr.distinct, "traces_validated_against_impl": len(episodes),
            "trace_events": tr.events, "statement_list_slots": slots, "position_depth": depth,
            "placements_replayed": len(placements),
